@@ -68,7 +68,9 @@ func (bs *sqlPartStore) PutPart(ctx context.Context, tx database.Tx, partId part
 	chunkIndex := 0
 	for {
 		content, err := ioutils.ReadChunk(reader, chunkSize)
-		if len(content) > 0 {
+		// An empty part still needs its (empty) first chunk: GetPart and
+		// GetPartIds recognise a part by its chunk rows.
+		if len(content) > 0 || (chunkIndex == 0 && err == io.EOF) {
 			partContentEntity := partContent.Entity{
 				Id:         ptrutils.ToPtr(partId),
 				ChunkIndex: chunkIndex,
